@@ -12,7 +12,7 @@ LEVEL_TEXT = (
     'end or a closed cycle; Path values are only built by re-executing the model; parent pointers '
     'are the expanding job. Does not decide fingerprint collisions or model determinism.')
 
-FLOORS = {'C03-R1': 12, 'C03-R2': 3, 'C03-R3': 4, 'C03-R4': 1, 'C03-R5': 6, 'C03-R6': 4, 'C03-R7': 1, 'C03-R8': 1, 'C11-R1': 14}
+FLOORS = {'C03-R1': 12, 'C03-R2': 3, 'C03-R3': 4, 'C03-R4': 1, 'C03-R5': 6, 'C03-R6': 4, 'C03-R7': 1, 'C03-R8': 1, 'C11-R1': 14, 'C19-R6': 3}
 
 
 # --------------------------------------------------------------------------------------------
@@ -47,7 +47,9 @@ def r1_recorded_is_dequeued(ctx, cb, rule='C03-R1'):
                       bad='SIM: property condition is evaluated on %r, not on the state %r whose '
                           'fingerprint was appended to the path' % (b.val(c.args[1]), state_v), span=c.span)
         for ins in cb.disc_inserts:
-            v = noref(b.trace(b.val(ins.args[2]), ('Clone::clone',)))
+            # a copy of the path, however it is spelled (clone of the Vec, to_vec of a slice of it, ...)
+            v = noref(b.trace(b.val(ins.args[2]), ('Clone::clone', 'slice::to_vec', 'ToOwned::to_owned', 'Deref::deref',
+                                                   'Vec::as_slice', 'From::from', 'Into::into', 'AsRef::as_ref')))
             ok = v == path_local and b.dominates(push.bb, ins.bb) or \
                 (v == path_local and ins in [x[0] for x in cb.ev_inserts])
             ctx.check(ok, rule, 'recorded@%s' % role_of_insert(cb, ins), b,
@@ -407,6 +409,12 @@ def run(ctx):
                       'successors')
     import c11
     c11.r1_bits(ctx, F)
+    # "follows only transitions the model defines": every strategy labels the steps of a reported path with
+    # Model::next_steps, so each listed action must be paired with its own successor
+    import c19
+    ctx.doc('C19-R6', 'Model::next_steps pairs every action with next_state(last_state, that action)')
+    with ctx.rule('C19-R6', 'next_steps'):
+        c19.r6_next_steps(ctx, F)
 
 
 def r8_sim_evaluated_state_in_boundary(ctx, F, rule='C03-R8'):
